@@ -182,6 +182,29 @@ def _shakespeare(check: Check, cf: ConstFolder):
   names = {x.id for x in ast.walk(pc.node) if isinstance(x, ast.Name)}
   check.ob('R-CONST.use', pc, 'BOS / EOS / PAD / TABLE', {'BOS', 'EOS', 'PAD', 'TABLE'} <= names,
            'the tokenizer emits the module constants (no stray literals)', nontrivial=False)
+  # every snippet contributes its BOS, characters and EOS: the loop that writes them visits every snippet (no continue / break / filter)
+  # and advances the write offset unconditionally - the total length was computed over all snippets, so a skipped one leaves a hole
+  pff = FuncFlow.of(repo, pc)
+  for n in pff.cfg.nodes:
+    if n.kind != 'for':
+      continue
+    loop = n.ast
+    stores = [x for x in ast.walk(loop) if isinstance(x, ast.Assign) and isinstance(x.targets[0], ast.Subscript)]
+    if not stores:
+      continue
+    jumps = [x for x in ast.walk(loop) if isinstance(x, (ast.Continue, ast.Break))]
+    cond_stores = [x for x in stores if not any(x is st for st in loop.body)]
+    adv = [x for x in loop.body if isinstance(x, ast.AugAssign) and isinstance(x.op, ast.Add)]
+    ok_every = not jumps and not cond_stores and bool(adv)
+    check.ob('R-STREAM.every', pc, f'for {txt(loop.target)} in {txt(loop.iter)[:30]}', ok_every if (ok_every or jumps or cond_stores) else None,
+             'every snippet is written (begin, characters, end) and the offset advances in every iteration'
+             if ok_every else f'some snippets are skipped or written conditionally ({len(jumps)} continue/break, {len(cond_stores)} conditional '
+             'stores): the label stream loses their begin / end markers while the total length still counts them', node=loop)
+  for _, c in pff.calls():
+    if pff.ext(c.func) == 'builtins.sum' and c.args and isinstance(c.args[0], (ast.GeneratorExp, ast.ListComp)):
+      g = c.args[0]
+      check.ob('R-STREAM.every', pc, txt(c)[:60], not any(gg.ifs for gg in g.generators),
+               'the total length counts every snippet', node=c)
 
 
 def _stackoverflow(check: Check, cf: ConstFolder):
@@ -432,6 +455,65 @@ def _cifar(check: Check):
   # crop bounds validated
   raises = any(isinstance(n.ast, ast.Raise) for n in ff.cfg.nodes if n.kind == 'stmt')
   check.ob('R-OFFSET', fi, 'crop size validation', raises, 'crop sizes outside 1..32 are rejected', nontrivial=False)
+  # the accepted sizes are exactly 1..32 for each of the two parameters: the guard of the raise is a condition on two integers and is
+  # tabulated over 0..33 (the other size held at a valid value)
+  from fjsa.flow import guards_of
+  rs = [n for n in ff.cfg.nodes if n.kind == 'stmt' and isinstance(n.ast, ast.Raise)]
+  if len(rs) == 1:
+    gs = guards_of(ff, rs[0].ast)
+    for prm in ('crop_height', 'crop_width'):
+      accepted, unknown = [], False
+      for v in range(0, 34):
+        env = {'crop_height': 16, 'crop_width': 16}
+        env[prm] = v
+        vals = [_eval_guard(t, env) for t, _ in gs]
+        if any(x is None for x in vals) or not gs:
+          unknown = True
+          break
+        raised = all(x == pol for x, (_, pol) in zip(vals, gs))
+        if not raised:
+          accepted.append(v)
+      ok_rng = None if unknown else accepted == list(range(1, 33))
+      shown = f'{accepted[0]}..{accepted[-1]}' if accepted and accepted == list(range(accepted[0], accepted[-1] + 1)) else str(accepted)
+      check.ob('R-RANGE', fi, f'accepted {prm}', ok_rng,
+               f'exactly the sizes 1..32 pass the validation (found: {"?" if unknown else shown}): a documented size that is rejected, or an '
+               'impossible one that is accepted, breaks the crop', node=rs[0].ast)
+
+
+def _eval_guard(e: ast.AST, env):
+  """Value of a condition built from comparisons of integer names / constants, and / or / not; None when anything else occurs."""
+  def num(x):
+    if isinstance(x, ast.Constant) and isinstance(x.value, (int, float)) and not isinstance(x.value, bool):
+      return x.value
+    if isinstance(x, ast.Name) and x.id in env:
+      return env[x.id]
+    if isinstance(x, ast.UnaryOp) and isinstance(x.op, ast.USub):
+      v = num(x.operand)
+      return None if v is None else -v
+    return None
+  if isinstance(e, ast.BoolOp):
+    vals = [_eval_guard(v, env) for v in e.values]
+    if any(v is None for v in vals):
+      return None
+    return all(vals) if isinstance(e.op, ast.And) else any(vals)
+  if isinstance(e, ast.UnaryOp) and isinstance(e.op, ast.Not):
+    v = _eval_guard(e.operand, env)
+    return None if v is None else not v
+  if isinstance(e, ast.Compare):
+    left = num(e.left)
+    res = True
+    for op, c in zip(e.ops, e.comparators):
+      right = num(c)
+      if left is None or right is None:
+        return None
+      r = {ast.Lt: left < right, ast.LtE: left <= right, ast.Gt: left > right, ast.GtE: left >= right, ast.Eq: left == right,
+           ast.NotEq: left != right}.get(type(op))
+      if r is None:
+        return None
+      res = res and r
+      left = right
+    return res
+  return None
 
 
 def _tf_min_stddev() -> Optional[str]:
